@@ -180,17 +180,39 @@ func (s *sess) textOut(kind string) (path string, read func() string) {
 // destination handle when reading the source fails (the descriptor and its flock live until
 // the garbage collector finalises the os.File): within one process the next command on that
 // file would block, so finalisers are run before going on.
+// runCmd runs a command; a panic is an observation; a command that does not return within the
+// watchdog time (a deadlock: nothing in a case takes longer than a few seconds) ends the process
+// with a fatal error, which the runner turns into the observation PROCESS-CRASHED of its case.
+const cmdWatchdog = 90 * time.Second
+
 func runCmd(execute func() error) (err error, panicked bool) {
-	defer func() {
-		if r := recover(); r != nil {
-			panicked = true
-		}
-		for i := 0; i < 3; i++ {
-			runtime.GC()
-			time.Sleep(2 * time.Millisecond)
-		}
+	type res struct {
+		err      error
+		panicked bool
+	}
+	ch := make(chan res, 1)
+	go func() {
+		var r res
+		defer func() {
+			if x := recover(); x != nil {
+				r.panicked = true
+			}
+			ch <- r
+		}()
+		r.err = execute()
 	}()
-	return execute(), false
+	select {
+	case r := <-ch:
+		err, panicked = r.err, r.panicked
+	case <-time.After(cmdWatchdog):
+		fmt.Fprintln(os.Stderr, "fatal error: command did not return within the watchdog time (hang)")
+		os.Exit(3)
+	}
+	for i := 0; i < 3; i++ {
+		runtime.GC()
+		time.Sleep(2 * time.Millisecond)
+	}
+	return err, panicked
 }
 
 // srcBaseFor returns the base given to the command: a directory of the case, or the URL of the
@@ -281,11 +303,47 @@ func init() {
 		if hasMeta(sr) {
 			files = s.globRel(sb, sr)
 		}
+		// live=NAME hold=NAME : the source NAME receives a point while the command runs.  The
+		// destination "hold" of the first matched file is kept locked; two clock seconds later the
+		// point (time = the clock then) is written and synced, then the lock is released: every file
+		// copied after the first one is read after the write.
+		liveDone := make(chan string, 1)
+		if a["live"] != "" {
+			hf, err := os.OpenFile(filepath.Join(s.dir, a["hold"]), os.O_RDWR, 0)
+			must(err)
+			must(flockEx(hf))
+			livePath := filepath.Join(s.dir, a["live"])
+			go func() {
+				start := time.Now().Unix()
+				for time.Now().Unix() < start+2 {
+					time.Sleep(20 * time.Millisecond)
+				}
+				tl := time.Now().Unix()
+				db, err := wt.Open(livePath)
+				if err == nil {
+					err = db.UpdatePointForArchive(wt.ArchiveIDBest, wt.Timestamp(tl), wt.Value(4242.5), wt.Timestamp(tl))
+					if err == nil {
+						err = db.Sync()
+					}
+					db.Close()
+				}
+				hf.Close()
+				if err != nil {
+					liveDone <- "failed"
+				} else {
+					liveDone <- fmt.Sprintf("%d,%016x", tl, math.Float64bits(4242.5))
+				}
+			}()
+		}
 		t0 := time.Now().Unix()
 		err, panicked := runCmd(c.Execute)
 		t1 := time.Now().Unix()
 		recs, nows := parseOutput(readOut())
-		s.echo(fmt.Sprintf("%s nows=%s files=%s clock=%d,%d", strings.Join(tk, " "), csvOrDash(nows), csvOrDash(files), t0, t1))
+		liveAt := ""
+		if a["live"] != "" {
+			liveAt = " liveat=" + <-liveDone
+		}
+		s.echo(fmt.Sprintf("%s nows=%s files=%s clock=%d,%d%s", strings.Join(tk, " "), csvOrDash(nows), csvOrDash(files), t0, t1, liveAt))
 		s.emit("clicopy", statusOf(err, panicked), recs)
 	}
 	handlers["clidiff"] = func(s *sess, tk []string) {
